@@ -98,7 +98,7 @@ def check(sids):
             shutil.rmtree(vd, ignore_errors=True)
         own = meta["property"]
         st = "caught" if own in fired else ("caught-by-other" if fired else "MISSED")
-        results[sid] = {"property": own, "status": st, "fired": fired, "title": meta.get("title", "")}
+        results[sid] = {"property": own, "status": st, "fired": fired, "title": meta.get("title", ""), "first_contact": meta.get("first_contact", ""), "strengthened": meta.get("strengthened", "")}
         print("%-28s %-16s %s" % (sid, st, ", ".join("%s[%s]" % (p, " ".join(v["obligations"])) for p, v in fired.items())))
     rc, out = sh("git status --porcelain", REPO)
     assert out.strip() == "", "/repo left dirty"
@@ -109,11 +109,11 @@ def check(sids):
     json.dump(allr, open(rp, "w"), indent=1, sort_keys=True)
     with open(os.path.join(SEEDED, "RESULTS.md"), "w") as f:
         f.write("# Seeded changes: which check reports which\n\nGenerated by selftest/seeded.py check (patch applied to /repo, all 20 checks run, patch undone).\n\n")
-        f.write("| seeded change | property | outcome | reporting obligations |\n|---|---|---|---|\n")
+        f.write("| seeded change | property | at first contact | now | reporting obligations | what was strengthened |\n|---|---|---|---|---|---|\n")
         for sid in sorted(allr):
             r = allr[sid]
-            f.write("| %s — %s | %s | %s | %s |\n" % (sid, r["title"], r["property"], r["status"],
-                    "; ".join("%s: %s" % (p, " ".join(v["obligations"])) for p, v in sorted(r["fired"].items())) or "—"))
+            f.write("| %s — %s | %s | %s | %s | %s | %s |\n" % (sid, r["title"], r["property"], r.get("first_contact", ""), r["status"],
+                    "; ".join("%s: %s" % (p, " ".join(v["obligations"])) for p, v in sorted(r["fired"].items())) or "—", r.get("strengthened", "")))
     return results
 
 if __name__ == "__main__":
